@@ -47,7 +47,17 @@ def run(tier, seed):
     work = C.build_dir(PID, wipe=True)
     v = C.Verdict(PID)
     camp = D.Campaign(PID, work, seed)
+    camp.nconf = 3 if tier == "quick" else 12
     rng = random.Random(seed)
+    for ex in D.explore_plan(tier, ["NoC01"], residue=True):
+        rec = camp.explore(**ex)
+        if ex.get("expect_violation"):
+            if not rec["violated"]:
+                raise C.MachineryError("vacuity guard: the model did not reproduce the residue finding")
+            rec["ok"], rec["guard"] = True, "known finding F-C01-1 reproduced by the model (expected)"
+        elif rec["violated"]:
+            C.log("MODEL-COUNTEREXAMPLE (not a verdict): %s %s" % (rec["violated"], rec.get("counterexample")))
+            rec["ok"] = False
     quick = tier == "quick"
     plan = [("tut13x2", 40), ("guix2", 30), ("tut1x2e", 20), ("tut3fedx2", 16)] if quick else \
            [("tut13x2", 300), ("tut3fedx2", 200), ("tut13x3", 300), ("guix2", 300), ("tut1x2e", 200), ("guix3e", 200), ("minx2", 200), ("getx2", 200), ("tut13x4", 150)]
@@ -69,6 +79,8 @@ def run(tier, seed):
         v.violation(sig, "%s started %s on %s without %s available (instance %s, event %d)" % (w, inst.const["tests"][t]["name"].split(".vms.")[0],
                     w, state, inst.name, f["event"]), {"instance": inst.name, "job": res["job"], "failure": f})
     rc = v.finish()
+    for dv in camp.conformance["diverged"][:3]:
+        C.log("CONFORMANCE-DIVERGED (the algorithm model rejects a recorded execution; the property monitors decide): %s" % dv)
     camp.evidence(tier, time.time() - t0, len(v.violations),
                   "randomized environment schedules (durations, PASS/FAIL/ERROR placement, initial pools incl. residues of runs interrupted at a "
                   "random event) on real lazy/eager traversals; each trace validated by TLC against TraversalObs (StartOK at every start)",
